@@ -58,3 +58,11 @@ func TraceShared(x any, name string)
 // TraceTake returns the logged events ("R cell", "W cell", "L cell", "U cell",
 // "ONCE-..." ) and stops tracing.
 func TraceTake() []string
+
+// TraceSharedDeep is TraceShared plus escape tracking: every object that becomes
+// reachable from the traced node (through a store into a traced cell or map) is
+// traced too, under a name unique to the object.
+func TraceSharedDeep(x any, name string)
+
+// TraceMark appends the event "M <s>" to the trace (thread boundary).
+func TraceMark(s string)
